@@ -465,4 +465,4 @@ var electionProp = pbt.Prop[Plan]{ID: "C08", Name: "election", Gen: genPlan, Run
 
 func TestProp_election(t *testing.T) { electionProp.Check(t) }
 
-func TestReplay(t *testing.T) { pbt.Replay(t, electionProp) }
+func TestReplay(t *testing.T) { pbt.Replay(t, electionProp, staticProp, consulModelProp, consulStoreProp) }
